@@ -14,11 +14,11 @@ EXPLANATION = (
     "check over the very vector handed to the node constructor (idiom table: windows(2).all(lt/gt), is_sorted_by(lt); "
     "non-strict forms are violations, unknown forms fail closed). C06.7: Encrypted/Compressed constructors' Ok exit is dominated "
     "by has_digest. C06.8: every bytes->CBOR conversion in the crate uses the validating dcbor parser. C06.9: no undischarged "
-    "panic site in the decode-reachable set (shared ledger with C16). Does not decide dcbor's rejection of non-deterministic "
+    "panic site in the decode-reachable set (shared ledger with C16). C06.12: the public decode entry points funnel into from_tagged_cbor exactly once (no entry point strips, tolerates or peels tags itself). Does not decide dcbor's rejection of non-deterministic "
     "CBOR or Digest::from_data_ref's length check (dependency summaries), nor stack exhaustion on unbounded nesting.")
 TRUSTED = ['Digest::from_data_ref rejects data whose length is not 32', 'CBOR::try_from_data accepts only deterministic CBOR',
            'EncryptedMessage::has_digest / Compressed::has_digest report whether a digest is declared']
-FLOORS = {'C06.1': 1, 'C06.2': 1, 'C06.3': 9, 'C06.6': 1, 'C06.7': 2, 'C06.11': 8}
+FLOORS = {'C06.1': 1, 'C06.2': 1, 'C06.3': 9, 'C06.6': 1, 'C06.7': 2, 'C06.11': 8, 'C06.12': 3}
 
 
 def strict_order_closure(F, clo):
@@ -63,6 +63,116 @@ def strict_order_closure(F, clo):
             if x and y and x[1] < y[1]:
                 return 'strict', fmt(rt)
     return None, 'unrecognised comparison: %s' % fmt(rt)
+
+
+def streaming_order(ctx, F, b, tb, accept_block, vec, svec):
+    """The order test made while the vector is being built: each decoded element x is pushed only if the accumulator is still empty
+    or digest(last(accumulator)) < digest(x).  Returns (ok, text, key) when this form is present, None otherwise."""
+    parts = seq_norm(vec, b, accept_block)
+    if parts is None or len(parts) != 1 or parts[0][0] != 'each':
+        return None
+    X = parts[0][1]
+    def same_acc(t):
+        t = strip_sites(detry(t))
+        while t[0] == 'call' and call_name(t) in ('deref', 'as_slice', 'as_ref', 'borrow') and len(t[2]) == 1:
+            t = strip_sites(detry(t[2][0]))
+        return t == svec
+    dlast = [strip_sites(dt) for sb, dt in switch_on(tb, b, lambda d: d[0] == 'discr' and strip_sites(d[1])[0] == 'call' and call_name(strip_sites(d[1])) == 'last'
+                                                     and same_acc(strip_sites(d[1])[2][0]))]
+    dlast = list(dict.fromkeys(dlast))
+    if len(dlast) != 1:
+        return None
+    L = strip_sites(detry(dlast[0][1]))
+    def side(t):
+        d = m_digest(t)
+        if d is None:
+            return None
+        d = strip_sites(detry_q(d))
+        if d[0] == 'vfield' and d[2] == 'Some' and strip_sites(detry(d[1])) == L:
+            return 0
+        u = m_call(d, name='unwrap') or m_call(d, name='expect')
+        if u is not None and strip_sites(detry(u[0])) == L:
+            return 0
+        if strip_sites(_norm(detry(d))) == X:
+            return 1
+        return None
+    def _norm(t):
+        from ..lib import _norm_elem
+        return _norm_elem(t)
+    def is_cmp(t):
+        if t[0] != 'call' or len(t[2]) != 2 or call_name(t) not in ('lt', 'gt', 'le', 'ge'):
+            return False
+        x, y = side(t[2][0]), side(t[2][1])
+        return x is not None and y is not None and x != y
+    atoms = find_terms(b, tb, is_cmp)
+    if len(atoms) != 1:
+        return (False, 'the decoder compares while building the vector, but no single comparison of digest(last(accumulator)) with the digest of the element about to be '
+                'pushed was found (%d candidates): misordered or repeated assertions may be accepted' % len(atoms), 'stream_atom')
+    a = atoms[0]
+    nm, order = call_name(a), (side(a[2][0]), side(a[2][1]))
+    strict_when = {('lt', (0, 1)): True, ('gt', (1, 0)): True, ('ge', (0, 1)): False, ('le', (1, 0)): False}.get((nm, order))
+    pushes = [pb for pb, c, t in b.calls() if c is not None and c.name == 'push' and len(tb.call_args(pb)) == 2
+              and strip_sites(_norm(detry(tb.call_args(pb)[1]))) == X]
+    if not pushes:
+        return None
+    rows = {}
+    for v in (True, False):
+        R = reach_under(b, tb, {dlast[0]: 1, a: v})
+        rows[v] = any(pb in R for pb in pushes)
+    if strict_when is None:
+        return (False, 'streaming order test %s is not a strict ascending comparison of previous and new digest' % fmt(a), 'stream_nonstrict')
+    if rows == {strict_when: True, (not strict_when): False}:
+        return (True, 'each decoded element is pushed only while the accumulator is empty or %s == %s (push reachability %s with a previous element present); the vector is exactly '
+                'the pushed elements' % (fmt(a), strict_when, rows), None)
+    return (False, 'streaming order test does not guard the push: with a previous element present the push is reachable for %s = %s' % (fmt(a), [k for k, v in rows.items() if v]), 'stream_table')
+
+
+def prev_scan_order(ctx, F, b, tb, accept_block, svec):
+    """The order test as a scan that carries the previous element: `prev = first; for cur in rest { if digest(prev) < digest(cur) { prev = cur } else { fail } }`
+    over the decoded vector, judged on the definitions of the two compared locals (lib.prev_scan). None when no such scan exists."""
+    for cb, c, t in b.calls():
+        if c is None or c.name not in ('lt', 'gt', 'le', 'ge') or len(t['args']) != 2:
+            continue
+        ps = prev_scan(b, tb, cb)
+        if ps is None:
+            continue
+        args = tb.call_args(cb)
+        def over_vec(x):
+            d = m_digest(x)
+            d = strip_sites(detry(d)) if d is not None else None
+            if d is None or d[0] != 'elem':
+                return False
+            src = strip_sites(detry(d[1]))
+            while src[0] == 'call' and call_name(src) in ('iter', 'deref', 'as_slice', 'into_iter', 'as_ref') and len(src[2]) == 1:
+                src = strip_sites(detry(src[2][0]))
+            return src == svec
+        if not (over_vec(args[0]) and over_vec(args[1])):
+            continue
+        nm = c.name
+        order = (0, 1) if ps['prev_arg'] == 0 else (1, 0)
+        strict_when = {('lt', (0, 1)): True, ('gt', (1, 0)): True, ('ge', (0, 1)): False, ('le', (1, 0)): False}.get((nm, order))
+        if strict_when is None:
+            return (False, 'the carried-previous order scan compares with %s(%s): not a strict ascending test of previous and current digest' % (
+                nm, 'previous, current' if order == (0, 1) else 'current, previous'), 'prev_nonstrict')
+        sw = t['t']
+        st = b.term(sw)
+        if not st or st['k'] != 'switch':
+            continue
+        n = len(b.blocks[sw]['stmts'])
+        atom = strip_sites(tb.operand_term(st['discr'], sw, n))
+        h = ps['header']
+        bad = reach_under(b, tb, {atom: (not strict_when)}, start=sw)
+        if h in bad or accept_block in bad:
+            return (False, 'carried-previous order scan: when the adjacent pair is NOT strictly ascending the scan %s' % (
+                'continues with the next element' if h in bad else 'still reaches the node accept exit'), 'prev_table')
+        good = reach_under(b, tb, {atom: strict_when}, start=sw, stop_blocks=[h])
+        if accept_block in good:
+            return (False, 'carried-previous order scan: the accept exit is reachable from a passing comparison without examining the remaining elements', 'prev_early')
+        if h not in good:
+            return (False, 'carried-previous order scan: a passing comparison does not continue the scan', 'prev_cont')
+        return (True, 'order scan carrying the previous element over the decoded vector: previous is the first element, then `previous = current` in bb%d, which dominates every back edge '
+                'of the loop at bb%d; a pair that fails %s(%s) ends the scan without accepting' % (ps['update'], h, nm, 'previous, current' if order == (0, 1) else 'current, previous'), None)
+    return None
 
 
 def check_decoder_order(ctx, inst, dec=None):
@@ -145,6 +255,24 @@ def check_decoder_order(ctx, inst, dec=None):
                     a = g[2]
                     if same(unwrap_try(a[0]), vec):
                         verdict = (g, 'nonstrict', '%s accepts equal neighbours' % nm, True)
+        if verdict is None:
+            sres = streaming_order(ctx, F, b, tb, bi, vec, svec)
+            if sres is not None:
+                ok_, text, key_ = sres
+                if ok_:
+                    ctx.ok(inst, ctx.site(b, bi, si), text)
+                else:
+                    ctx.fail(inst, ctx.site(b, bi, si), text, key=inst + '|' + key_)
+                continue
+        if verdict is None:
+            sres = prev_scan_order(ctx, F, b, tb, bi, svec)
+            if sres is not None:
+                ok_, text, key_ = sres
+                if ok_:
+                    ctx.ok(inst, ctx.site(b, bi, si), text)
+                else:
+                    ctx.fail(inst, ctx.site(b, bi, si), text, key=inst + '|' + key_)
+                continue
         if verdict is None:
             ctx.fail(inst, ctx.site(b, bi, si), 'no adjacent-digest order check over the decoded assertion vector guards the node accept exit '
                      '(the decoder would accept misordered or repeated assertions)%s' % ('; ' + '; '.join(problems) if problems else ''), key=inst + '|missing', rule='GUARD/IDIOM-UNKNOWN')
@@ -276,6 +404,8 @@ def check(ctx):
                 ctx.fail('C06.2', ctx.site(rb, bi, si), 'CBOR->Assertion accept exit bypasses the single-entry check: %s' % fmt(t), key='C06.2|bypass')
     # ---- C06.7 has_digest guards
     check_has_digest(ctx, 'C06.7')
+    # ---- C06.12 public decode entry points
+    check_entry_points(ctx, 'C06.12')
     # ---- C06.8 bytes -> CBOR only through the validating parser
     n = 0
     for bb in F.bodies:
@@ -301,6 +431,70 @@ def check(ctx):
             else:
                 ctx.fail('C06.8', ctx.site(bb, bi), 'bytes converted to CBOR by %s, not by the validating parser' % c.best, key='C06.8|%s|%s' % (bb.path, c.name))
     ctx.count('bytes_to_cbor_sites', n)
+
+
+def check_entry_points(ctx, inst):
+    """Every public CBOR -> Envelope entry point funnels into the tag-checking decoder: TryFrom<CBOR> is from_tagged_cbor(value) (the dcbor
+    default, which refuses any tag but the envelope tag before calling from_untagged_cbor); try_from_cbor is that conversion;
+    try_from_cbor_data parses the bytes with the validating parser and hands the value to one of them. An entry point that strips a
+    tag itself, tolerates a missing or foreign tag, or peels repeatedly accepts input the writer never emits (and can return an
+    envelope other than the one encoded)."""
+    F = ctx.F
+    P1 = ('param', 1)
+    tf = F.trait_impl('TryFrom', 'Envelope', 'try_from', trait_full_contains='CBOR')
+    tfh = {b.hash for b in tf}
+    def ftc(v):
+        a = m_call(v, name='from_tagged_cbor')
+        return a is not None and strip_sites(detry(a[0]))
+    def conv(v):
+        """value is CBOR->Envelope conversion applied to x: returns x"""
+        v = strip_sites(detry(v))
+        x = ftc(v)
+        if x:
+            return x
+        if v[0] == 'call' and call_name(v) in ('try_into', 'try_from') and len(v[2]) == 1:
+            c = callee_of(v)
+            if call_name(v) == 'try_into' or (c is not None and c.best_hash in tfh):
+                return strip_sites(detry(v[2][0]))
+        a = m_call(v, name='try_from_cbor', self_suffix='Envelope')
+        if a is not None:
+            return strip_sites(detry(a[0]))
+        return None
+    def judge(b, what, ok_pred, want):
+        tb = TermBuilder(F, b)
+        acc = accept_sites(b, tb)
+        if not acc:
+            ctx.lost(inst, 'accept exit of ' + what)
+        for bi, si, t in acc:
+            v = strip_sites(detry(t))
+            if v[0] == 'agg' and v[2] == 'Ok' and v[3]:
+                v = strip_sites(detry(v[3][0]))
+            if ok_pred(v):
+                ctx.ok(inst, ctx.site(b, bi, si), '%s = %s' % (what, want), sample=fmt(v))
+            else:
+                ctx.fail(inst, ctx.site(b, bi, si), '%s returns %s, not %s: the envelope tag is no longer checked exactly once by the tagged decoder' % (what, fmt(v)[:200], want),
+                         key='%s|%s' % (inst, what), rule='FLOW/IDIOM-UNKNOWN')
+    if len(tf) != 1:
+        ctx.lost(inst, 'TryFrom<CBOR> for Envelope')
+    else:
+        judge(tf[0], 'TryFrom<CBOR>::try_from', lambda v: ftc(v) == P1, 'from_tagged_cbor(value)')
+    b = F.method1('Envelope', 'try_from_cbor')
+    if b is None:
+        ctx.lost(inst, 'Envelope::try_from_cbor')
+    else:
+        judge(b, 'try_from_cbor', lambda v: conv(v) == P1 and m_call(v, name='try_from_cbor', self_suffix='Envelope') is None, 'the TryFrom<CBOR> conversion of the value')
+    b = F.method1('Envelope', 'try_from_cbor_data')
+    if b is None:
+        ctx.lost(inst, 'Envelope::try_from_cbor_data')
+    else:
+        def data_ok(v):
+            a = m_call(v, name='from_tagged_cbor_data')
+            if a is not None and strip_sites(detry(a[0])) == P1:
+                return True
+            x = conv(v)
+            p = m_call(x, name='try_from_data') if x is not None else None
+            return p is not None and strip_sites(detry(p[0])) == P1
+        judge(b, 'try_from_cbor_data', data_ok, 'the CBOR conversion of CBOR::try_from_data(bytes)')
 
 
 def check_has_digest(ctx, inst):
